@@ -171,6 +171,19 @@ def run_translator():
     return True, 'regenerated'
 
 
+def env_names(binary):
+    """environment-variable-like names in the binary that could concern clock-bound's libraries"""
+    try:
+        data = open(binary, 'rb').read()
+    except OSError:
+        return []
+    names = []
+    for m in re.finditer(rb'[A-Z][A-Z0-9_]{4,40}', data):
+        t = m.group(0).decode()
+        if any(k in t for k in ('CLOCKBOUND', 'CLOCK_BOUND', 'SHM_', 'RETR', 'DRIFT', 'GRACE')) and t not in names: names.append(t)
+    return names
+
+
 def build_harness():
     with Lock('cargo'):
         # keep the lock file in step with /repo's (path dependencies resolve through it)
@@ -337,6 +350,21 @@ def check(pid, tier, seed):
             path = write_replay(pid, seed, 'harness', {'property': pid, 'what': 'harness run failed', 'args': g, 'log': out[-4000:]})
             print(f'VIOLATION property={pid} replay={path} no-failing-input-found'); return 1
         lines += out.splitlines()
+    # hostile environment: every environment-variable-like name the harness binary (= the libraries under test)
+    # mentions that could concern the client/segment code is set, and a sample of this run's requests is executed
+    # again: nothing these libraries do may depend on the environment (the modifier travels with the request, so
+    # the replay is self-contained; the model ignores it). No such name in the binary: nothing to do.
+    env_kinds = cfg.get('env_kinds')
+    if env_kinds:
+        names = env_names(BIN)
+        if names:
+            base = []
+            for l in lines:
+                r = l.split(' => ')[0].strip()
+                if r.split(' ', 1)[0] in env_kinds and ' @env ' not in r and r not in base: base.append(r)
+                if len(base) >= 60: break
+            extra = [f"{r} @env {' '.join(n + '=' + v for n in names[:16])}" for v in ('0', '1', 'x') for r in base]
+            lines += run_requests(extra)
     cases = evaluate(lines)
     relevant = [c for c in cases if c.hang or cfg.get('relevant', lambda c: True)(c)]
     # 2. separate accounting: oracle failures on impl output, model disagreements
